@@ -309,6 +309,11 @@ func (cr *checkRun) generateAndSolve() {
 	for _, lm := range specs.Lemmas {
 		if hasProp(lm.Props, prop) {
 			w, o := verifyLemma(l, specs, lm)
+			for _, k := range loadKnown().Findings {
+				if k.Obligation == o.Name && k.Status != "fixed" {
+					o.KnownFailing = true
+				}
+			}
 			cr.lemmaObls = append(cr.lemmaObls, o)
 			cr.lemmaW[o] = w
 		}
@@ -478,21 +483,21 @@ func (cr *checkRun) report(start time.Time, evPath string) int {
 		"seed":        cr.seed,
 		"level":       "proof",
 		"coverage": map[string]any{
-			"obligations":              total - len(knownHit),
+			"obligations":               total - len(knownHit),
 			"known_finding_obligations": len(knownHit),
-			"discharged":               discharged,
-			"checker_cmd":              fmt.Sprintf("./bin/goavc check --property %s --tier %s", prop, cr.tier),
-			"trusted_base":             []string{"z3 4.8.12", "z3-new 5.1.0", "cvc5 1.0", "golang.org/x/tools/go/ssa v0.29.0", "goavc VC generator (this repository)", "assumed contracts in /verif/models/*.spec"},
-			"samples":                  samples,
-			"functions_under_contract": fnNames,
-			"obligation_results":       records,
-			"discharged_by_solver":     bySolver,
-			"solver_ms":                solverMs,
-			"vacuity_checks":           vacuity,
-			"outside_subset":           outside,
-			"known_findings_hit":       knownHit,
-			"contract_drift":           cr.drift,
-			"lemmas":                   len(cr.lemmaObls),
+			"discharged":                discharged,
+			"checker_cmd":               fmt.Sprintf("./bin/goavc check --property %s --tier %s", prop, cr.tier),
+			"trusted_base":              []string{"z3 4.8.12", "z3-new 5.1.0", "cvc5 1.0", "golang.org/x/tools/go/ssa v0.29.0", "goavc VC generator (this repository)", "assumed contracts in /verif/models/*.spec"},
+			"samples":                   samples,
+			"functions_under_contract":  fnNames,
+			"obligation_results":        records,
+			"discharged_by_solver":      bySolver,
+			"solver_ms":                 solverMs,
+			"vacuity_checks":            vacuity,
+			"outside_subset":            outside,
+			"known_findings_hit":        knownHit,
+			"contract_drift":            cr.drift,
+			"lemmas":                    len(cr.lemmaObls),
 		},
 		"assumptions": assumptions,
 		"wall_s":      time.Since(start).Seconds(),
